@@ -114,6 +114,40 @@ def _pool():
     return st.lists(item, min_size=2, max_size=4)
 
 
+_DIR_HOW = ["indent", "compact", "reversed", "newline", "drop-entry"]
+_FILE_HOW = ["flip", "truncate", "append"]
+_HOW = st.fixed_dictionaries({"dir": st.sampled_from(_DIR_HOW), "file": st.sampled_from(_FILE_HOW)})
+
+
+def _reserialise(data, how):
+    """Another loadable, well-formed JSON listing than `data` (None if `data` is not a listing)."""
+    import json
+
+    lst = ref.parse_listing(data)
+    if lst is None:
+        return None
+    if how == "indent":
+        new = json.dumps(lst, indent=1, sort_keys=True).encode()
+    elif how == "compact":
+        new = json.dumps(lst, separators=(",", ":"), sort_keys=True).encode()
+    elif how == "reversed" and len(lst) >= 2:
+        new = json.dumps(lst[::-1], sort_keys=True).encode()
+    elif how == "drop-entry" and len(lst) >= 2:
+        new = json.dumps(lst[:-1], sort_keys=True).encode()
+    else:
+        new = data + b"\n"
+    return new if new != data else data + b"\n"
+
+
+def _rot(data, how):
+    if not data or how == "append":
+        return data + b"\n"
+    if how == "truncate":
+        return data[:-1]
+    k = len(data) // 2
+    return data[:k] + bytes([data[k] ^ 1]) + data[k + 1:]
+
+
 class C01Machine(TraceMachine):
     # ---- set-up --------------------------------------------------------------------------
     def on_setup(self):
@@ -132,6 +166,8 @@ class C01Machine(TraceMachine):
         self.big = set()        # contents of the mixed > 1 MiB pool files
         self.leftovers = [{} for _ in STORES]  # per store: {oid: planted bytes} still outstanding
         self.listings = []      # canonical listing bytes of the pool trees (md5 / md5-dos2unix child ids)
+        self.tampered = [{} for _ in STORES]   # per store: {oid: bytes the HARNESS put there} still outstanding
+        self.ncache = 0
 
     def _make_stores(self):
         self.odbs = []
@@ -328,10 +364,13 @@ class C01Machine(TraceMachine):
             return
         want = {HashInfo("md5", have[i % len(have)]) for i in picks}
         sodb, dodb = self.odbs[src], self.odbs[1 - src]
+        # a store the harness tampered with is an untrusted source: the honest caller verifies what comes out of
+        # it, and the harness's own second delivery (an unverified add) does not read from it
+        untrusted = bool(self.tampered[src])
 
         def hook(status):
             new = sorted(h.value for h in status.new)
-            if not new or not deliver:
+            if not new or not deliver or untrusted:
                 return
             cfg = {"state": self.state} if self.state is not None else {}
             second = ops.make_odb(STORES[1 - src][1], dodb.path, **cfg)
@@ -339,10 +378,105 @@ class C01Machine(TraceMachine):
                 second.add(sodb.oid_to_path(oid), sodb.fs, oid)
             self.labels.add("xfer-raced-by-second-delivery")
 
-        res = transfer(sodb, dodb, want, shallow=shallow, hardlink=hardlink, validate_status=hook)
+        res = transfer(sodb, dodb, want, shallow=shallow, hardlink=hardlink, validate_status=hook,
+                       verify=untrusted)
         if res.transferred:
             self.effective.add("xfer")
             self.labels.add("xfer" + ("-hardlink" if hardlink else "") + ("" if shallow else "-expanded"))
+        if untrusted:
+            self.labels.add("xfer-verifying-out-of-tampered-store")
+
+    @rule(store=st.integers(0, 1), which=st.integers(0, 40), how=_HOW)
+    @traced
+    def tamper(self, store, which, how):
+        """Bit-rot / a re-serialising remote: the harness replaces one object of an md5 store (see _tamper)."""
+        have = sorted(self.ids[store])
+        if have:
+            self._tamper(store, have[which % len(have)], how)
+
+    def _tamper(self, store, oid, how):
+        """Replace object `oid` of store L or G by bytes that no longer hash to its name: a '.dir' object stays a
+        loadable, well-formed JSON listing (re-serialised with other whitespace / entry order, a trailing newline,
+        or its last entry dropped), a file object gets a flipped bit, loses its last byte or gains one.  The file
+        is replaced (new inode, so copies hard-linked elsewhere stay intact), keeps its mode (0o444 in the local
+        store: the store goes on trusting it) and gets a later mtime."""
+        path = self.odbs[store].oid_to_path(oid)
+        st0 = os.lstat(path)
+        data = ref.read(path)
+        if oid in self.tampered[store] or oid in self.leftovers[store]:
+            return False
+        isdir = oid.endswith(".dir")
+        new = _reserialise(data, how["dir"]) if isdir else _rot(data, how["file"])
+        if new is None or new == data or ref.ref_hash(new, "md5") == (oid[:-4] if isdir else oid):
+            return False
+        self.labels.add("tamper-dir:" + how["dir"] if isdir else "tamper-file:" + how["file"])
+        os.unlink(path)
+        fd = os.open(path, os.O_WRONLY | os.O_CREAT | os.O_EXCL, 0o600)
+        try:
+            os.write(fd, new)
+        finally:
+            os.close(fd)
+        os.chmod(path, stat.S_IMODE(st0.st_mode))
+        os.utime(path, ns=(st0.st_atime_ns, st0.st_mtime_ns + 3_000_000_000))
+        self.tampered[store][oid] = new
+        return True
+
+    @rule(src=st.integers(0, 1), picks=st.lists(st.integers(0, 40), min_size=1, max_size=4),
+          shallow=st.booleans(), hardlink=st.booleans(), verify=st.booleans(),
+          rot=st.lists(st.fixed_dictionaries({"k": st.integers(0, 3), "how": _HOW}), max_size=2),
+          cache=st.one_of(st.none(), st.none(), st.sampled_from(["intact", *_DIR_HOW])))
+    @traced
+    def xfer_untrusted(self, src, picks, shallow, hardlink, verify, rot, cache=None):
+        """A fetch from a store that is not trusted: `rot` first tampers (see _tamper) with drawn objects among
+        those about to be requested, then transfer(src, dest, ids, verify=...) runs - verify=True whenever the
+        source holds an object the harness tampered with (verify=False copies bytes as they are, so it is only
+        drawn for an intact source).  With `cache` the caller also passes cache_odb=: a separate store (built by
+        the harness, not audited) that holds a copy of every requested '.dir' object - byte-identical ('intact')
+        or re-serialised; the library may read listings from it, the bytes it files in the destination are
+        judged by the ordinary audit."""
+        from dvc_data.hashfile.hash_info import HashInfo
+        from dvc_data.hashfile.transfer import transfer
+
+        have = sorted(self.ids[src])
+        if not have:
+            return
+        oids = sorted({have[i % len(have)] for i in picks})
+        for r in rot:
+            oid = oids[r["k"] % len(oids)]
+            if self._tamper(src, oid, r["how"]):
+                self.labels.add("xfer_untrusted-rot-" + ("dir" if oid.endswith(".dir") else "file"))
+        untrusted = bool(self.tampered[src])
+        verify = verify or untrusted
+        sodb, dodb = self.odbs[src], self.odbs[1 - src]
+        kw = {}
+        if cache is not None:
+            kw["cache_odb"] = self._cache_copy(sodb, oids, cache)
+        present = {o for o in oids if os.path.exists(dodb.oid_to_path(o))}
+        res = transfer(sodb, dodb, {HashInfo("md5", o) for o in oids}, shallow=shallow, hardlink=hardlink,
+                       verify=verify, **kw)
+        self.labels.add("xfer_untrusted" + ("-verify" if verify else "") + ("-hardlink" if hardlink else "")
+                        + ("" if shallow else "-expanded"))
+        if cache is not None and any(o.endswith(".dir") for o in oids):
+            self.labels.add("xfer_untrusted-cache_odb:" + ("intact" if cache == "intact" else "reserialised"))
+        if res.transferred:
+            self.effective.add("xfer")
+        aimed = sorted(o for o in oids if o in self.tampered[src] and o not in present)
+        if aimed:
+            self.labels.add("verifying-transfer-of-tampered-" +
+                            ("dir" if any(o.endswith(".dir") for o in aimed) else "file"))
+
+    def _cache_copy(self, sodb, oids, how):
+        """The caller's own cache for cache_odb=: a fresh local-class store outside the audited four, holding a
+        copy of each requested '.dir' object of the source ('intact' = same bytes, else re-serialised, 0o644)."""
+        self.ncache += 1
+        codb = ops.make_odb("local", os.path.join(self.dir, f"cachecopy{self.ncache}"))
+        for oid in oids:
+            if not oid.endswith(".dir"):
+                continue
+            data = ref.read(sodb.oid_to_path(oid))
+            new = data if how == "intact" else (_reserialise(data, how) or data)
+            gen.write_file(codb.oid_to_path(oid), new)
+        return codb
 
     @rule(store=st.integers(0, 1), item=st.integers(0, 7),
           dkeys=st.one_of(st.none(), st.lists(st.integers(0, 40), max_size=2)))
@@ -425,9 +559,10 @@ class C01Machine(TraceMachine):
         from dvc_data.hashfile.db.migrate import migrate, prepare
 
         s, t = ROUTES[route]
-        if not self.ids[s] or self.leftovers[s]:
+        if not self.ids[s] or self.leftovers[s] or self.tampered[s]:
             # precondition: the source of a migration holds no outstanding crash leftover (migrate hard-links
-            # every file of the source, so protecting the new object would also chmod the leftover)
+            # every file of the source, so protecting the new object would also chmod the leftover) and no
+            # object the harness tampered with (a migration re-files the bytes it finds, unverified)
             return
         if s == 2 and any(_href(b, "md5-dos2unix") in self.ids[2] for b in self.big):
             self.labels.add("migrate-legacy-with-mixed-large")
@@ -495,12 +630,13 @@ class C01Machine(TraceMachine):
                             if not (p[0] == "mismatch" and len(contents.get(p[1], b"")) > CHUNK
                                     and not p[1].endswith(".dir") and _href(contents[p[1]], algo) == p[1])]
             problems = self._judge_leftovers(i, label, contents, problems)
+            problems = self._judge_tampered(i, contents, problems)
             for what, oid, why in problems:
                 self.violate(f"{what}:{_origin(self.trace)}", f"store {label} ({kind}, {algo}): {why}")
             for oid, data in contents.items():
                 if oid.endswith(".dir"):
                     self.saw_dir = True
-                elif oid in self.leftovers[i]:
+                elif oid in self.leftovers[i] or oid in self.tampered[i]:
                     continue
                 elif data not in self.file_bytes and _is_listing(data):
                     self.violate(f"dir-suffix-lost:{_origin(self.trace)}",
@@ -544,6 +680,26 @@ class C01Machine(TraceMachine):
                                  f"store {label}: the state records the leftover under {oid} as a valid object")
             tolerated.add(oid)
         return [p for p in problems if not (p[1] in tolerated and p[0] in ("mismatch", "mode"))]
+
+    def _judge_tampered(self, i, contents, problems):
+        """An object the harness tampered with is excused - in the store where the harness did it, and only
+        while it still holds exactly the bytes the harness wrote; gone or correctly replaced = healed, anything
+        else is judged by the ordinary audit.  The same bytes under the same name in ANOTHER store are not
+        excused: they got there through the library."""
+        excused = set()
+        for oid, planted in list(self.tampered[i].items()):
+            raw = oid[:-4] if oid.endswith(".dir") else oid
+            if oid not in contents:
+                del self.tampered[i][oid]
+                self.labels.add("tampered-healed-by-removal")
+            elif ref.ref_hash(contents[oid], "md5") == raw:
+                del self.tampered[i][oid]
+                self.labels.add("tampered-healed-by-replacement")
+            elif contents[oid] != planted:
+                del self.tampered[i][oid]
+            else:
+                excused.add(oid)
+        return [p for p in problems if not (p[1] in excused and p[0] == "mismatch")]
 
     def on_summary(self):
         nontrivial = bool(max(self.changes) >= 2 and self.saw_dir and self.effective)
